@@ -10,6 +10,7 @@ inside the two manager files.  The recorded history is checked against model17.
 """
 import inspect
 import os
+import sys
 
 import numpy as np
 
@@ -65,6 +66,24 @@ def env():
     stock = Backend._available_backends["numpy"]
     tagged_numpy = type("TaggedNumpy", (NumpyBackend,), {"__getattribute__": _tagging_getattribute, "tag": "numpy@1"}, backend_name="numpy")
     Backend._available_backends["numpy"] = stock  # the registry keeps the stock class under "numpy"
+    # real locks on the managers (none in the unchanged tree) would hang a baton-passing simulation:
+    # replace them by cooperative stand-ins
+    import _thread
+    import threading
+    from .sched import CoopLock
+
+    lock_types = (type(threading.Lock()), type(threading.RLock()))
+    n_locks = 0
+    for owner in (BM, TM, tlb, tlt, sys.modules.get("tensorly.backend.core"), sys.modules.get("tensorly.tenalg.base_tenalg")):
+        if owner is None:
+            continue
+        for k, v in list(vars(owner).items()):
+            if isinstance(v, lock_types):
+                try:
+                    setattr(owner, k, CoopLock(v))
+                    n_locks += 1
+                except (AttributeError, TypeError):
+                    pass
     be_file = inspect.getsourcefile(BM)
     ta_file = inspect.getsourcefile(TM)
     _ENV.update(
@@ -318,6 +337,11 @@ class Run:
         E = self.E
         BM, TM = E["BM"], E["TM"]
         err = []
+        from .sched import CoopLock
+
+        for l in CoopLock.ALL:  # normally done (and reported) by check_locks at the end of the run that leaked it
+            if l.leaked():
+                l.renew()
 
         def do():
             try:
@@ -326,13 +350,21 @@ class Run:
                     if isinstance(c, dict):
                         c.clear()
                 if self.cfg["warm"]:
-                    for nm in BE_VALID:
-                        BM.load_backend(nm)
-                    for nm in TA_VALID:
-                        TM.load_backend(nm)
+                    try:
+                        for nm in BE_VALID:
+                            BM.load_backend(nm)
+                        for nm in TA_VALID:
+                            TM.load_backend(nm)
+                    except BaseException as e:  # noqa  (incl. a lock left held by an earlier run)
+                        self.direct.append((0, "blocked-forever" if type(e).__name__ == "SimDeadlock" else "be.select-valid-raised",
+                                            f"loading a valid backend at the start of the run failed: {type(e).__name__}: {e}"))
+                from .sched import SimDeadlock
+
                 for mgr, mod in (("be", E["tl"]), ("ta", E["tlt"])):
                     try:
                         mod.set_backend(self.cfg["D0"][mgr])
+                    except SimDeadlock as e:
+                        self.direct.append((0, "blocked-forever", f"set_backend({self.cfg['D0'][mgr]!r}) at the start of the run can never complete: {e}"))
                     except Exception as e:
                         # a *valid* name rejected at the start of a run: the library kept state from an earlier
                         # run of this process (chunks start from a clean child, so this replays as a prefix)
@@ -541,7 +573,7 @@ class Run:
                 if unwind is not None:
                     raise unwind
         except BaseException as e:
-            if isinstance(e, HarnessError):
+            if isinstance(e, HarnessError) or type(e).__name__ == "SimDeadlock":
                 raise
             if not entered:
                 if not self.is_bad(mgr, b):
@@ -566,14 +598,53 @@ class Run:
 
     def thread_fn(self, spec):
         def fn(t):
+            from .sched import SimDeadlock
+
             try:
                 self.run_ops(t, spec["ops"], 0)
+            except SimDeadlock as e:
+                self.violate("blocked-forever", f"a selection or query can never complete: {e}")
+                for h in self.history:  # the operation in flight never returns
+                    if h["ret"] is None:
+                        h["out"] = "blocked"
+                        h["ret"] = self.sched.stamp()
             except BaseException as e:
                 if hasattr(e, "sim_levels"):
                     return  # unwound past the top of the program: swallowed by the harness
                 raise
 
         return fn
+
+    def check_locks(self):
+        """Every thread of the run has ended.  A lock of the managers that is still held can never be released:
+        confirm through the public API that the next selection would block forever, report it in *this* run
+        and give the process a fresh lock so that later runs of the chunk start clean."""
+        import threading
+
+        from .sched import CoopLock, SimDeadlock
+
+        held = [l for l in CoopLock.ALL if l.leaked()]
+        if not held:
+            return
+        out = []
+
+        def probe():
+            for mgr, mod in (("be", self.E["tl"]), ("ta", self.E["tlt"])):
+                try:
+                    mod.set_backend("numpy" if mgr == "be" else "core", local_threadsafe=True)
+                except SimDeadlock as e:
+                    out.append((mgr, str(e)))
+                except BaseException:  # noqa  (anything else is the business of the run's own oracles)
+                    pass
+
+        th = threading.Thread(target=probe, name="sim-lockprobe")
+        th.start()
+        th.join()
+        for mgr, msg in out:
+            self.direct.append((self.sched.stamp(), "blocked-forever",
+                                f"after every thread of the run ended, {mgr} set_backend(<valid>, local_threadsafe=True) from a new thread can never complete: {msg}"))
+        for l in held:
+            l.renew()
 
     def execute(self):
         import warnings
@@ -585,6 +656,7 @@ class Run:
             if self.cfg.get("warn_error"):
                 warnings.simplefilter("error")
             self.sched.run()
+        self.check_locks()
         for h in self.history:
             if h["ret"] is None:
                 raise HarnessError("operation never returned: %r" % (h,))
